@@ -27,7 +27,8 @@ import common
 import proofs
 from common import hx
 
-FILES = ["Model_diag.v", "Proofs_diag.v", "Model_diag_session.v", "Proofs_diag_session.v", "Entry_diag.v", "Extract_diag.v"]
+FILES = ["Model_diag.v", "Proofs_diag.v", "gen/Gen_diag.v", "Proofs_diag_inst.v", "Proofs_diag_more.v", "Proofs_diag_angle.v", "Model_diag_session.v", "Proofs_diag_session.v",
+         "Entry_diag.v", "Extract_diag.v"]
 PROP = "Properties/C13.v"
 GROUP = "diag"
 AXES = "abc"
@@ -198,25 +199,159 @@ def gen_textures(chk, tier):
     return out
 
 
+F_KINDS = ("random", "near_singular", "shear", "stretch", "sym_spd", "sym_indefinite", "sym_negdef", "sym_detneg",
+           "diagonal", "stretch_halfturn", "minus_identity", "rotation")
+
+
+def exact_sym(U, lam):
+    """U diag(lam) U^T made EXACTLY symmetric (bitwise S == S.T)"""
+    S = U @ np.diag(np.asarray(lam, dtype=float)) @ U.T
+    return (S + S.T) / 2
+
+
+def halfturn(U, k):
+    """half-turn about column k of the orthogonal U (exactly symmetric)"""
+    d = -np.ones(3)
+    d[k] = 1.0
+    return exact_sym(U, d)
+
+
 def gen_F(chk, tier):
+    """deformation gradients with a partner rotation Q.  Besides generic F: EXACTLY symmetric F (positive definite,
+    indefinite, negative definite, negative determinant), diagonal F with signs, a stretch combined with a half-turn
+    about one of its principal axes (F = V.Q = Q.V is symmetric and indefinite; the partner Q is that half-turn, so
+    F.Q and Q.F are the symmetric positive definite V), -I, pure rotations."""
     rng = np.random.default_rng(chk.seed + 7)
-    n = 40 if tier == "quick" else 400
+    n = 4 * len(F_KINDS) if tier == "quick" else 40 * len(F_KINDS)
     out = []
     for i in range(n):
-        kind = ("random", "near_singular", "shear", "stretch")[i % 4]
+        kind = F_KINDS[i % len(F_KINDS)]
+        rep = i // len(F_KINDS)
+        Q = haar(rng)
+        U = haar(rng) if rep % 2 else np.eye(3)          # principal axes: generic / the coordinate axes
+        s = np.sort(np.exp(rng.normal(0, 0.7, 3)))[::-1] * np.array([1.5, 1.0, 0.6])   # distinct stretches, s0 largest
         if kind == "random":
             F = rng.normal(0, 1, (3, 3))
         elif kind == "near_singular":
-            U, V = haar(rng), haar(rng)
-            F = U @ np.diag([rng.uniform(0.5, 3), rng.uniform(1e-3, 0.5), 10.0 ** rng.uniform(-9, -3)]) @ V.T
+            V = haar(rng)
+            F = haar(rng) @ np.diag([rng.uniform(0.5, 3), rng.uniform(1e-3, 0.5), 10.0 ** rng.uniform(-9, -3)]) @ V.T
         elif kind == "shear":
             F = np.eye(3)
             F[1, 0] = rng.uniform(0, 8)
-        else:
-            U = haar(rng)
-            F = U @ np.diag(np.exp(rng.normal(0, 0.7, 3))) @ U.T
-        out.append(dict(kind=kind, F=F, Q=haar(rng)))
+        elif kind == "stretch":
+            W = haar(rng)
+            F = W @ np.diag(np.exp(rng.normal(0, 0.7, 3))) @ W.T
+        elif kind == "sym_spd":
+            F = exact_sym(U, s)
+        elif kind == "sym_indefinite":      # det > 0, the eigenvalue of largest magnitude is negative
+            F = exact_sym(U, [-s[0], -s[1], s[2]])
+        elif kind == "sym_negdef":
+            F = exact_sym(U, -s)
+        elif kind == "sym_detneg":          # a mirror combined with a stretch
+            F = exact_sym(U, [-s[0], s[1], s[2]] if rep % 4 < 2 else [s[0], s[1], -s[2]])
+        elif kind == "diagonal":
+            sg = np.array([(-1.0, -1.0, 1.0), (1.0, -1.0, -1.0), (-1.0, 1.0, -1.0), (1.0, 1.0, 1.0)][rep % 4])
+            F = np.diag(np.array([2.0, 1.0, 0.5])[rng.permutation(3)] * sg)
+            Q = np.diag(sg)                 # the half-turn that undoes the signs
+        elif kind == "stretch_halfturn":    # F = V.Q with Q a half-turn about a principal axis other than the long one
+            k = 1 + rep % 2
+            Q = halfturn(U, k)
+            d = -np.ones(3)
+            d[k] = 1.0
+            F = exact_sym(U, s * d)
+        elif kind == "minus_identity":
+            F = -np.eye(3) if rep % 2 == 0 else exact_sym(U, [-1.0, -1.0, -1.0])
+        else:                               # rotation (incl. exact half-turns: symmetric, eigenvalues 1, -1, -1)
+            F = halfturn(U, rep % 3) if rep % 2 == 0 else haar(rng)
+        out.append(dict(kind=kind, F=F, Q=Q))
     return out
+
+
+def gen_angles(chk, tier):
+    """(vector, axis[, plane normal]) for diagnostics.smallest_angle (the COMPILED numba kernel is called)"""
+    rng = np.random.default_rng(chk.seed + 17)
+    e = np.eye(3)
+    cases = []
+
+    def add(kind, v, a, p=None):
+        cases.append(dict(kind=kind, v=np.array(v, dtype=float), a=np.array(a, dtype=float),
+                          p=None if p is None else np.array(p, dtype=float)))
+
+    for i in range(3):
+        for j in range(3):
+            for sg in (1.0, -1.0):
+                add("basis", e[i], sg * e[j])
+                add("basis+plane", e[i] + e[(i + 1) % 3], sg * e[j], e[(i + 1) % 3])
+    r2 = float(np.sqrt(2))
+    add("doctest", [1, 0, 0], [r2, r2, 0]); add("doctest", [1, 0, 0], [-r2, r2, 0])
+    add("zero-vector", [0, 0, 0], [1, 0, 0]); add("zero-axis", [1, 0, 0], [0, 0, 0]); add("zero-both", [0, 0, 0], [0, 0, 0])
+    add("vector-along-normal", [0, 0, 2], [1, 0, 0], [0, 0, 1]); add("zero-axis+plane", [1, 2, 3], [0, 0, 0], [0, 0, 1])
+    add("negative-zero", [-0.0, 0.0, -0.0], [1, 0, 0])
+
+    def unit():
+        x = rng.normal(0, 1, 3)
+        return x / np.linalg.norm(x)
+
+    for k in range(48 if tier == "quick" else 480):
+        u, w = unit(), unit()
+        kind = ("unit", "scaled", "near-parallel", "near-antiparallel", "near-orthogonal", "parallel-scaled", "plane", "plane-non-unit-normal")[k % 8]
+        p = None
+        if kind == "unit":
+            v, a = u, w
+        elif kind == "scaled":
+            v, a = 3.7 * u, 0.01 * w
+        elif kind == "near-parallel":
+            v, a = u, u + 10.0 ** rng.uniform(-12, -4) * w
+        elif kind == "near-antiparallel":
+            v, a = u, -u + 10.0 ** rng.uniform(-12, -4) * w
+        elif kind == "near-orthogonal":
+            t = np.cross(u, w)
+            v, a = u, t / np.linalg.norm(t) + 10.0 ** rng.uniform(-14, -6) * u
+        elif kind == "parallel-scaled":      # |cos| can exceed 1 by rounding: the clip is active
+            v, a = rng.uniform(0.1, 9) * u, (-1) ** k * rng.uniform(0.1, 9) * u
+        elif kind == "plane":
+            v, a, p = u * rng.uniform(0.5, 2), w, unit()
+        else:
+            v, a, p = u, w, unit() * rng.uniform(0.2, 3)
+        add(kind, v, a, p)
+        add(kind + ":axis-reversed", v, -a, p)
+        if k % 3 == 0:
+            add(kind + ":vector-reversed", -v, a, p)
+    return cases
+
+
+def angle_call(dg, c):
+    f64 = lambda x: np.ascontiguousarray(x, dtype=np.float64)   # noqa: E731
+    try:
+        x = dg.smallest_angle(f64(c["v"]), f64(c["a"])) if c["p"] is None else dg.smallest_angle(f64(c["v"]), f64(c["a"]), f64(c["p"]))
+        return ("OK", float(x))
+    except Exception as e:  # noqa: BLE001
+        return ("ERR", common.exc_code(e))
+
+
+def oracle_angle(dg, c):
+    """smallest_angle read directly: in [0, 90]; the angle whose cosine is |w.a| / (|w||a|), w = the (projected) vector;
+    ZeroDivisionError exactly when w or the axis is the zero vector; unchanged when the axis or the vector is reversed"""
+    fails = []
+    v, a, p = c["v"], c["a"], c["p"]
+    w = v if p is None else v - p * np.dot(v, p)
+    r = angle_call(dg, c)
+    d = np.linalg.norm(w) * np.linalg.norm(a)
+    if d == 0:
+        return [] if r == ("ERR", "DivZero") else [f"zero (projected) vector or axis: expected ZeroDivisionError, got {r}"]
+    if r[0] != "OK":
+        return [f"raised {r[1]}"]
+    x = r[1]
+    if not (-1e-9 <= x <= 90 + 1e-9):
+        fails.append(f"angle {x!r} outside [0, 90]")
+    ref = float(np.rad2deg(np.arccos(min(1.0, abs(np.dot(w, a)) / d))))
+    if abs(x - ref) > 1e-5:
+        fails.append(f"angle {x!r} but arccos(|w.a| / (|w||a|)) = {ref!r} degrees")
+    for what, c2 in (("axis", dict(c, a=-a)), ("vector", dict(c, v=-v))):
+        r2 = angle_call(dg, c2)
+        if r2[0] != "OK" or abs(r2[1] - x) > 1e-6:
+            fails.append(f"angle changes when the {what} is reversed: {x!r} -> {r2[1]!r}")
+    return fails
 
 
 # --------------------------------------------------------------------------
@@ -486,15 +621,31 @@ def flat(os):
 AXCODE = {"a": 0, "b": 1, "c": 2}
 
 
+GEN_TWIN = {"scatter": "gen_scatter", "pgr": "gen_pgr", "bingham": "gen_bingham", "coaxial": "gen_coaxial", "lcg": "gen_lcg",
+            "fse": "gen_fse", "fse_angle": "gen_fse_angle", "smallest_angle": "gen_angle"}
+
+
 class Run:
-    """collects model lines + expectations, runs them in one batch"""
+    """collects model lines + expectations, runs them in one batch.  Every case of 1, 2 or 3 grains (and every
+    finite-strain / angle case) is ALSO run through the extracted GENERATED definitions (gen/Gen_diag.v, entries gen_*):
+    the code regenerated from the source must reproduce the implementation on binary64 inputs too (NaN included)."""
 
     def __init__(self):
         self.lines, self.expect = [], []
+        self.n_gen = 0
 
     def add(self, entry, ints, floats, expected, meta, rtol=RTOL, scale=1.0):
         self.lines.append(common.model_line(entry, ints, floats))
         self.expect.append((expected, meta, rtol, scale))
+        twin = GEN_TWIN.get(entry)
+        if twin and (not ints or 1 <= ints[-1] <= 3):
+            exp2 = expected
+            if entry == "scatter" and expected[0] == "OK":     # the generated function returns the full 3x3 array
+                v = expected[1]
+                exp2 = ("OK", [v[0], 0.0, 0.0, v[1], v[2], 0.0, v[3], v[4], v[5]])
+            self.lines.append(common.model_line(twin, [0] if entry == "fse" else ints, floats))
+            self.expect.append((exp2, dict(meta, generated_code=twin), rtol, scale))
+            self.n_gen += 1
 
     def add_line(self, line, expected, meta, rtol=RTOL, scale=1.0):
         self.lines.append(line)
@@ -646,32 +797,32 @@ def correspondence(chk, tier):
                              dict(kind="session:" + fam, n=n, op="whole history", function="session", session=sess, call_sequence=seq,
                                   what="session trace"), scale=max(1.0, n))
         # invalid axis specifiers (match statement: anything but exactly "a" / "b" / "c" raises ValueError)
-        os = haar(np.random.default_rng(chk.seed + 3), 4)
+        os = haar(np.random.default_rng(chk.seed + 3), 3)
         BADAX = ("d", "x", "", "A", " a", "a ", "ab", None, 0)
         for fn, entry in ((dg.symmetry_pgr, "pgr"), (dg.bingham_average, "bingham")):
             for badax in BADAX:
                 r = call(rec, fn, os, axis=badax)
-                run.add(entry, [7, 4], flat(os) + [0.0] * 12, ("ERR", r[1]) if r[0] == "ERR" else ("OK", []),
-                        dict(function=fn.__name__, axis=badax, os=os, n=4, kind="random", op="invalid-axis"))
+                run.add(entry, [7, 3], flat(os) + [0.0] * 12, ("ERR", r[1]) if r[0] == "ERR" else ("OK", []),
+                        dict(function=fn.__name__, axis=badax, os=os, n=3, kind="random", op="invalid-axis"))
                 bump("function", fn.__name__ + ":invalid-axis")
                 chk.note_case((entry, badax), nontrivial=True)
         for badax in BADAX:
             for pos in (0, 1):
                 kw = dict(axis1=badax, axis2="a") if pos == 0 else dict(axis1="b", axis2=badax)
                 r = call(rec, dg.coaxial_index, os, **kw)
-                run.add("coaxial", [7, 0, 4] if pos == 0 else [1, 7, 4], flat(os) + [0.0] * 6,
+                run.add("coaxial", [7, 0, 3] if pos == 0 else [1, 7, 3], flat(os) + [0.0] * 6,
                         ("ERR", r[1]) if r[0] == "ERR" else ("OK", []),
-                        dict(function="coaxial_index", axis=repr(kw), os=os, n=4, kind="random", op="invalid-axis"))
+                        dict(function="coaxial_index", axis=repr(kw), os=os, n=3, kind="random", op="invalid-axis"))
                 bump("function", "coaxial_index:invalid-axis")
                 chk.note_case(("coaxial", badax, pos), nontrivial=True)
         # legal but unusual spellings of a valid axis (numpy string scalar)
         for k, a in enumerate(AXES):
             r = call(rec, dg.symmetry_pgr, os, axis=np.str_(a))
-            meta = dict(function="symmetry_pgr", axis=a, os=os, n=4, kind="random", op="axis as np.str_")
+            meta = dict(function="symmetry_pgr", axis=a, os=os, n=3, kind="random", op="axis as np.str_")
             bump("function", "symmetry_pgr:np.str_ axis")
             if r[0] == "OK" and check_calls(r[2], meta, ["eigvalsh"]):
-                run.add("scatter", [k, 4], flat(os), ("OK", lower6(r[2][0][1])), dict(meta, what="matrix passed to eigvalsh"), scale=4.0)
-                run.add("pgr", [k, 4], flat(os) + list(r[2][0][4]), ("OK", list(r[1])), meta)
+                run.add("scatter", [k, 3], flat(os), ("OK", lower6(r[2][0][1])), dict(meta, what="matrix passed to eigvalsh"), scale=3.0)
+                run.add("pgr", [k, 3], flat(os) + list(r[2][0][4]), ("OK", list(r[1])), meta)
             else:
                 bad.append((meta, f"implementation: {r[:2]}"))
             chk.note_case(("pgr-npstr", a), nontrivial=True)
@@ -726,6 +877,64 @@ def correspondence(chk, tier):
                               sample=dict(function="finite_strain", kind=c["kind"], op=op, F=[float(x) for x in G.reshape(-1)],
                                           result=[float(r[1][0])] + [float(x) for x in r[1][1]] if r[0] == "OK" else r[1])
                               if len(chk.cov["samples"]) < 6 else None)
+        # every LAPACK driver finite_strain accepts (keyword and positional), and the texture diagnostics called
+        # WITHOUT axis arguments (defaults: "a"; axis1 "b", axis2 "a") / with positional axis arguments
+        hist.setdefault("argument_convention", {})
+        for c in gen_F(chk, tier)[:len(F_KINDS)]:
+            G = c["F"]
+            for drv in ("ev", "evd", "evr", "evx"):
+                for how in ("keyword", "positional"):
+                    r = call(rec, dg.finite_strain, G, driver=drv) if how == "keyword" else call(rec, dg.finite_strain, G, drv)
+                    meta = dict(function="finite_strain", kind=c["kind"], op=f"driver={drv!r} ({how})", F=G)
+                    bump("argument_convention", f"finite_strain driver={drv} {how}")
+                    if r[0] == "OK" and check_calls(r[2], meta, ["eigh"]):
+                        k = r[2][0]
+                        if k[3].get("driver") != drv:
+                            bad.append((meta, f"LAPACK was called with {k[3]} instead of the caller's driver"))
+                        run.add("lcg", [], flat(G), ("OK", lower6(k[1])), dict(meta, what="matrix passed to eigh"), scale=max(1.0, float(np.abs(k[1]).max())))
+                        run.add("fse", [], flat(G) + list(k[4][0]) + flat(k[4][1]), ("OK", [float(r[1][0])] + list(r[1][1])), meta)
+                        run.add_line(common.model_line("gen_fse", [1], flat(G) + list(k[4][0]) + flat(k[4][1])),
+                                     ("OK", [float(r[1][0])] + list(r[1][1])), dict(meta, generated_code="gen_fse (driver=)"))
+                    elif r[0] == "ERR":
+                        bad.append((meta, f"implementation raised {r[1]}"))
+                    chk.note_case(("fse-driver", drv, how, G.tobytes()), nontrivial=True)
+        drng2 = np.random.default_rng(chk.seed + 13)
+        for n in (1, 2, 3, 9):
+            dos = texture(drng2, "clustered", n)
+            fl = flat(dos)
+            for how, a_pgr, a_co in (("defaults", (), ()), ("positional", ("c",), ("c", "b")), ("positional", ("b",), ("a", "a"))):
+                k_pgr = AXCODE[a_pgr[0]] if a_pgr else 0
+                k_co = (AXCODE[a_co[0]], AXCODE[a_co[1]]) if a_co else (1, 0)
+                bump("argument_convention", f"texture diagnostics {how}")
+                r = call(rec, dg.symmetry_pgr, dos, *a_pgr)
+                meta = dict(function="symmetry_pgr", kind="clustered", n=n, op=f"axis arguments {how} {a_pgr}", axis=AXES[k_pgr], axis2=AXES[k_co[1]], os=dos)
+                if r[0] == "OK" and check_calls(r[2], meta, ["eigvalsh"]):
+                    run.add("scatter", [k_pgr, n], fl, ("OK", lower6(r[2][0][1])), dict(meta, what="matrix passed to eigvalsh"), scale=max(1.0, n))
+                    run.add("pgr", [k_pgr, n], fl + list(r[2][0][4]), ("OK", list(r[1])), meta)
+                    if n == 1 and how == "defaults":
+                        run.add_line(common.model_line("gen_default", [0], fl + list(r[2][0][4])), ("OK", list(r[1])), dict(meta, generated_code="gen_default 0"))
+                else:
+                    bad.append((meta, f"implementation: {r[:2]}"))
+                r = call(rec, dg.bingham_average, dos, *a_pgr)
+                meta = dict(meta, function="bingham_average")
+                if r[0] == "OK" and check_calls(r[2], meta, ["eigh"]):
+                    run.add("scatter", [k_pgr, n], fl, ("OK", lower6(r[2][0][1])), dict(meta, what="matrix passed to eigh"), scale=max(1.0, n))
+                    run.add("bingham", [k_pgr, n], fl + list(r[2][0][4][0]) + flat(r[2][0][4][1]), ("OK", list(r[1])), meta)
+                    if n == 1 and how == "defaults":
+                        run.add_line(common.model_line("gen_default", [1], fl + list(r[2][0][4][0]) + flat(r[2][0][4][1])), ("OK", list(r[1])),
+                                     dict(meta, generated_code="gen_default 1"))
+                else:
+                    bad.append((meta, f"implementation: {r[:2]}"))
+                r = call(rec, dg.coaxial_index, dos, *a_co)
+                meta = dict(meta, function="coaxial_index", op=f"axis arguments {how} {a_co}", axis=AXES[k_co[0]])
+                if r[0] == "OK" and check_calls(r[2], meta, ["eigvalsh", "eigvalsh"]):
+                    run.add("coaxial", [k_co[0], k_co[1], n], fl + list(r[2][0][4]) + list(r[2][1][4]), ("OK", [float(r[1])]), meta)
+                    if n == 1 and how == "defaults":
+                        run.add_line(common.model_line("gen_default", [2], fl + list(r[2][0][4]) + list(r[2][1][4])), ("OK", [float(r[1])]),
+                                     dict(meta, generated_code="gen_default 2"))
+                else:
+                    bad.append((meta, f"implementation: {r[:2]}"))
+                chk.note_case(("argconv", how, a_pgr, a_co, dos.tobytes()), nontrivial=True)
         # finite strain on ONE deformation-gradient object that is modified in place between the calls; the caller
         # scribbles on every returned axis (it owns the result)
         hist.setdefault("fse_sequence", {})
@@ -764,6 +973,15 @@ def correspondence(chk, tier):
                     dict(function="angle_fse_simpleshear", strain=float(s)))
             bump("function", "angle_fse_simpleshear")
             chk.note_case(("angle", float(s)), nontrivial=s != 0)
+        # smallest_angle: the compiled numba kernel vs the model (and the generated definitions)
+        hist.setdefault("angle_kind", {})
+        for c in gen_angles(chk, tier):
+            r = angle_call(dg, c)
+            fl = flat(c["v"]) + flat(c["a"]) + ([] if c["p"] is None else flat(c["p"]))
+            bump("angle_kind", c["kind"].split(":")[0]); bump("function", "smallest_angle")
+            run.add("smallest_angle", [], fl, ("OK", [r[1]]) if r[0] == "OK" else ("ERR", r[1]),
+                    dict(function="smallest_angle", kind=c["kind"], angle_case=c), rtol=1e-6)
+            chk.note_case(("smallest_angle", c["kind"], tuple(fl)), nontrivial=r[0] == "OK" and 0 < r[1] < 90)
     cmp_bad = run.compare()
     for m, d in cmp_bad:
         if m.get("what") == "session trace":      # does the implementation behave like the refuted memoising variant?
@@ -775,6 +993,7 @@ def correspondence(chk, tier):
     bad += cmp_bad
     chk.cov["oracle_calls_residual_checked"] = spec_checked
     chk.cov["traces_validated_against_impl"] = len(run.lines)
+    chk.cov["cases_also_run_through_generated_code"] = run.n_gen
     return bad
 
 
@@ -1044,6 +1263,12 @@ def search(chk, extra=()):
         fails = oracle_F(dg, ut, F, Q)
         if fails:
             add(dict(call="finite_strain", F=[hx(x) for x in F.reshape(-1)], Q=[hx(x) for x in Q.reshape(-1)]), fails)
+    apool = [m["angle_case"] for m in extra if "angle_case" in m] + gen_angles(chk, "quick")
+    for c in apool:
+        fails = oracle_angle(dg, c)
+        if fails:
+            add(dict(call="smallest_angle", vector=[hx(x) for x in c["v"]], axis=[hx(x) for x in c["a"]],
+                     plane=None if c["p"] is None else [hx(x) for x in c["p"]]), fails)
     for g in (0.5, 1.0, 2.0, 5.0):
         fails = oracle_shear(dg, ut, g)
         if fails:
@@ -1054,7 +1279,8 @@ def search(chk, extra=()):
 def run(chk):
     ok, br = proofs.prove(chk, FILES, PROP, groups=(GROUP,), gen_modules=(GROUP,))
     chk.cov["trusted_base"] = common.TRUSTED_COMMON[:1] + common.TRUSTED_COMMON[2:] + [
-        "hand-written Model_diag.v (scatter matrix, P/G/R, coaxial index, Bingham mean, finite strain, angle helper), tied to the source by this differential run (tie H)",
+        "hand-written Model_diag.v (scatter matrix, P/G/R, coaxial index, Bingham mean, finite strain, angle helper): tie T at 1, 2, 3 grains -- gen/Gen_diag.v is regenerated from stats._scatter_matrix, diagnostics.symmetry_pgr / coaxial_index / bingham_average / finite_strain and utils.angle_fse_simpleshear on every run (translator/specs_diag.py) and Proofs_diag_inst.v proves generated = model for every input array, every axis code and every array-level LAPACK function; for any number of grains the list model is tied by this differential run (tie H)",
+        "translator/specs_diag.py: NumPy float64 semantics of array elements (arithmetic never raises), np.zeros / np.sum (left to right) / np.sqrt / np.arctan / np.rad2deg / 3x3 @ / transpose / slicing of object arrays, scipy.linalg.norm of a 3-vector = sqrt(x.x); the axis specifier as a symbolic string compared with literals through == (code = big-endian UTF-8 value - 97); la.eigvalsh / la.eigh become calls of a function parameter (one positional 3x3 argument, no keyword except finite_strain's own driver= passed through, else the translator fails closed); signatures and default arguments are checked with inspect; two additive clauses in translator/emit_coq.py (parameter kind `oracle`)",
         "LAPACK (scipy.linalg.eigh / eigvalsh) is an oracle: theorems assume vals_spec / eig_spec (ascending eigenvalues, characteristic polynomial, S v = lambda v, orthonormal v); the harness checks the residuals of every recorded call (<= 1e-10 |S|) and that the matrix given to LAPACK equals the model's matrix",
         "np.sum / matmul accumulate in a different order than the model's left-to-right sums (compared to 1e-10)",
         "hand-written Model_diag_session.v (call histories on live objects modified in place); tied by executing the same histories in one Python process on the same ndarray objects: matrices handed to LAPACK vs the extracted `run false`, every result vs the one-call entries on the current contents and vs the same call on a fresh copy; NumPy's in-place operations (slice assignment, matmul out=, *=) are trusted to do what the model's fill / rotate / permute / flip say (the contents are read back and the model's own state evolution is compared to 1e-10); float32 objects: sums accumulated in float32, compared to 1e-5",
@@ -1087,7 +1313,7 @@ def run(chk):
         if sig not in sigs and len(shown) < 6:
             sigs.add(sig)
             shown.append((m, d))
-    dis = [{k: v for k, v in m.items() if k not in ("os", "F", "session")} | {"detail": d[:600]} for m, d in shown]
+    dis = [{k: v for k, v in m.items() if k not in ("os", "F", "session", "angle_case")} | {"detail": d[:600]} for m, d in shown]
     if found:
         for payload, fails in found:
             chk.replay({"kind": "property-violation", "input": payload, "observed": fails,
@@ -1113,6 +1339,9 @@ def replay(d):
         fails = oracle_texture(dg, os, i["axis"], i["axis2"], np.random.default_rng(d.get("seed", 0) + 2))
     elif i["call"] == "session":
         fails = oracle_session(dg, sess_from_json(i))[0]
+    elif i["call"] == "smallest_angle":
+        fails = oracle_angle(dg, dict(v=np.array([u(x) for x in i["vector"]]), a=np.array([u(x) for x in i["axis"]]),
+                                      p=None if i["plane"] is None else np.array([u(x) for x in i["plane"]])))
     elif i["call"] == "finite_strain":
         fails = oracle_F(dg, ut, np.array([u(x) for x in i["F"]]).reshape(3, 3), np.array([u(x) for x in i["Q"]]).reshape(3, 3))
     else:
